@@ -17,4 +17,7 @@ IntStr(i)        == ""                \* overridden: decimal digits of a TLC int
 FmtParse(s)      == <<>>              \* overridden: string.format directive parser: seq of <<kind, text>>,
                                       \*   kind in {"lit","s","d","bad"}
 StrHasPrefix(s, p) == FALSE           \* overridden
+JsonOf(v)        == ""                \* overridden: compact JSON text of records / sequences / strings / ints / booleans
+                                      \*   (bytes outside 0x20..0x7e and the characters " \ are written \u00XX)
+EmitLine(s)      == TRUE              \* overridden: prints the string s as one raw line on stdout; TRUE
 =============================================================================
